@@ -515,10 +515,75 @@ def run_case(st: Stats, case, limits, nograph=None, ppar=False, entmeta=None):
             r.cleanup()
 
 
+# ---- every graph FORD builds for an entity with a page is shown on that page --------------------------------------------
+BODIES_SRC = {"src/blas.f90": ("module blas\n!! generic interfaces made of interface bodies only (library procedures)\nimplicit none\ninterface axpy\n!! axpy\n"
+                                "subroutine saxpy(x)\nreal :: x\nend subroutine saxpy\nsubroutine daxpy(x)\ndouble precision :: x\nend subroutine daxpy\nend interface axpy\n"
+                                "interface rescale\n!! rescale\nmodule procedure rescale_r\nend interface rescale\ncontains\nsubroutine rescale_r(x)\n!! rescale_r\nreal :: x\n"
+                                "call axpy(x)\nend subroutine rescale_r\nsubroutine update(y)\n!! update\nreal :: y\ncall axpy(y)\ncall rescale(y)\nend subroutine update\nend module blas\n")}
+EMBED_PROJECTS = ["bodies", "procs", "procs-generic", "modules", "types", "files"]
+
+
+def run_embed_case(st: Stats, case):
+    _, which, limits = case
+    if which == "bodies":
+        files = dict(BODIES_SRC)
+    elif which == "procs":
+        files, _ = proc_project({(1, 2), (2, 3), (3, 1)}, True, False)
+    elif which == "procs-generic":
+        files, _ = proc_project({(1, 2), (2, 3)}, True, True)
+    elif which == "modules":
+        files, _ = module_project({(2, 1), (3, 2)}, 2, (1, 3), (2,), False)
+    elif which == "types":
+        files, _ = type_project({2: 1, 3: 2}, {(1, 3)})
+    else:
+        files, _ = file_project({(2, 1), (3, 2), (4, 3)}, True, True)
+    maxdepth, maxnodes = limits
+    r = fordrun.build(files, dict(graph=True, graph_maxdepth=maxdepth, graph_maxnodes=maxnodes, display=["public", "private", "protected"], incl_src=True), stage="docs")
+    st.evaluations += 1
+    stratum = f"embedded/{which}"
+    feats = dict(family="embedded", maxdepth=maxdepth, maxnodes=maxnodes, nograph="", show_proc_parent=False, entity_limits="")
+    inp = dict(case=["embed", which, list(limits)], files=files)
+    st.nontrivial.add(core.digest(inp["case"]))
+    try:
+        if r.error is not None or r.stage_reached != "docs":
+            st.violation("ford-failed", stratum, feats, inp, (repr(r.error) + " " + r.log[-300:]).strip(), "graphs are built")
+            st.stratum(stratum, 1)
+            return
+        bad = 0
+        shown = []
+        for pg in r.docs.docs:
+            obj = getattr(pg, "obj", None)
+            if obj is None:
+                continue
+            html_ = None
+            for attr in ("usesgraph", "usedbygraph", "callsgraph", "calledbygraph", "inhergraph", "inherbygraph", "efferentgraph", "afferentgraph"):
+                g = getattr(obj, attr, None)
+                if g is None or not hasattr(g, "dot"):
+                    continue
+                snippet = str(g).strip()
+                if not snippet:
+                    continue
+                st.transitions += 1
+                if html_ is None:
+                    html_ = pg.html
+                ok = snippet in html_
+                shown.append((getattr(obj, "name", "?"), attr, ok))
+                if not ok:
+                    bad += 1
+                    st.violation("graph-not-on-page", stratum, dict(feats, graph=attr, entity_kind=type(obj).__name__), inp, dict(entity=getattr(obj, "name", "?"), graph=attr), "the graph FORD built for the entity is embedded in the entity's page")
+        st.states.add(core.digest(sorted(shown)))
+        st.stratum(stratum, bad)
+    finally:
+        r.cleanup()
+
+
 def work(chunk):
     st = Stats()
     for (case, limits, nograph, ppar, *more) in chunk:
-        run_case(st, case, limits, nograph, ppar, more[0] if more else None)
+        if case[0] == "embed":
+            run_embed_case(st, case)
+        else:
+            run_case(st, case, limits, nograph, ppar, more[0] if more else None)
     return st
 
 
@@ -529,6 +594,9 @@ def gen_jobs(tier):
         jobs.append((c, limits, None, False))
     for c in gen_file_cases(tier):
         jobs.append((c, limits, None, False))
+    for which in EMBED_PROJECTS:
+        for lim in limits:
+            jobs.append((("embed", which, lim), [], None, False))
     # show_proc_parent on a slice, graph: false on each single entity of a few base shapes
     for c in list(gen_proc_cases(tier))[:: 16 if tier == "quick" else 4]:
         jobs.append((c, [(10000, BIG)], None, True))
@@ -569,6 +637,11 @@ def replay(path):
 
     st = Stats()
     em = i.get("entmeta")
+    if i["case"][0] == "embed":
+        run_embed_case(st, tup(i["case"]))
+        for v in st.violations:
+            print("REPRODUCED", v["clause"], v["observed"])
+        return 1 if st.violations else 0
     run_case(st, tup(i["case"]), [(i.get("maxdepth", 10000), i.get("maxnodes", BIG))], i.get("nograph"), rec["features"].get("show_proc_parent", False),
              (em[0], tuple(tuple(kv) for kv in em[1])) if em else None)
     for f, t in i["files"].items():
